@@ -1302,6 +1302,14 @@ def witness_specs():
         yield {"xs": ["x0"], "ps": ["p0"], "ys": [], "logs": [], "teqs": [eq], "meqs": [], "values": vals, "flat": True}
 
 
+# a growing steady path with a product of two trending variables (candidate defect: second block row of the
+# non-flat steady Jacobian evaluated at t instead of t+k)
+STEADY_WITNESS = {"xs": ["x0", "x1", "x2"], "ps": ["p0", "p1"], "ys": [], "logs": ["x1"],
+                  "teqs": ["x2 = 0.3*x0[-1]*x1[+1] + 0.2*x2[-1] + e2", "x0 = x0[-1] + p1 + e0", "x1 = x1[-1]*exp(p0)*exp(e1)"],
+                  "meqs": [], "values": {"p0": 0.1, "p1": 0.3, "x0": (1.0, 0.3), "x1": (2.0, 1.1), "x2": (0.75, 0.2)},
+                  "flat": False}
+
+
 def user_function_checks(ctx, fails, info_counts):
     """functions from the model context are differentiated by two-sided quotients"""
     import irispie as ir
@@ -1369,6 +1377,16 @@ def falsify(ctx, hints):
             raise
         except Exception as e:  # noqa
             counts.setdefault("witness_errors", []).append(f"{type(e).__name__}: {e}"[:120])
+    try:
+        m = build_model(STEADY_WITNESS)
+        info = model_info(m)
+        arr, off = steady_data(m, info)
+        falsify_steady(SimpleNamespace(spec=STEADY_WITNESS, m=m, info=info, rho=None, arr=arr, off=off), fails, counts)
+        counts["witnesses"] += 1
+    except HarnessError:
+        raise
+    except Exception as e:  # noqa
+        counts.setdefault("witness_errors", []).append(f"{type(e).__name__}: {e}"[:120])
     # 2. random models
     n = ctx.scale(60, 2500)
     models = make_models(ctx, n, res, special_share=0.15)
